@@ -4,24 +4,27 @@
 (* matrix in one of its defect classes, at most MaxDefects fields away from the     *)
 (* defaults.  Every combination is emitted and fed to the real compiler by          *)
 (* `vh c06-run`; the outcome algebra of DictBuild is explored alongside.            *)
+(* "wide" classes: the malformed value is longer than 32 bytes and made of multi-    *)
+(* byte characters ("mixed": after one ASCII letter), so that anything that cuts,    *)
+(* pads or quotes the offending text at a byte offset meets the middle of a character *)
 EXTENDS DictBuild, Json
 
 CONSTANTS MaxDefects
 
 FieldClasses == [
-  lid    |-> {"0", "max", "size", "-1", "-2", "32767", "32768", "x", "empty"},
-  rid    |-> {"0", "max", "size", "-1", "32767", "x"},
-  cost   |-> {"0", "32767", "-32768", "32768", "x"},
+  lid    |-> {"0", "max", "size", "-1", "-2", "32767", "32768", "x", "empty", "xwide", "xmixed"},
+  rid    |-> {"0", "max", "size", "-1", "32767", "x", "xwide"},
+  cost   |-> {"0", "32767", "-32768", "32768", "x", "xwide", "xmixed", "huge"},
   key    |-> {"ok", "empty", "long", "toolong", "badescape", "escape"},
   head   |-> {"same", "other", "toolong"},
-  dic    |-> {"*", "self", "other", "dangling", "uref", "neg"},
-  mode   |-> {"A", "C", "bad"},
-  splita |-> {"*", "ids", "dangling", "inline_ok", "inline_bad", "n127", "n128", "garbage"},
-  ws     |-> {"*", "ids", "dangling", "n128"},
-  syn    |-> {"*", "ids", "n127", "n128", "x", "absent"},
+  dic    |-> {"*", "self", "other", "dangling", "uref", "neg", "xwide"},
+  mode   |-> {"A", "C", "bad", "badwide"},
+  splita |-> {"*", "ids", "dangling", "inline_ok", "inline_bad", "n127", "n128", "garbage", "garbagewide", "inline_wide"},
+  ws     |-> {"*", "ids", "dangling", "n128", "garbagewide"},
+  syn    |-> {"*", "ids", "n127", "n128", "x", "absent", "xwide", "huge"},
   arity  |-> {"full", "short17", "short5", "extra"},
   matrix |-> {"2x2", "2x3", "3x2", "emptyfile", "blank", "headeronly", "badheader", "negsize", "cell_at_size", "cell_beyond",
-              "cell_neg", "shortline", "garbage", "dup", "0x0"} ]
+              "cell_neg", "shortline", "garbage", "dup", "0x0", "cellwide", "headerwide", "coordwide"} ]
 
 Defaults == [lid |-> "0", rid |-> "0", cost |-> "0", key |-> "ok", head |-> "same", dic |-> "*", mode |-> "A", splita |-> "*",
              ws |-> "*", syn |-> "*", arity |-> "full", matrix |-> "2x2"]
